@@ -214,6 +214,9 @@ mut("c16-r10-offset-smaller-than-column", "C16", "C16.R10", (LS, "            LI
 benign("c16-r10-benign-padding-one-repeat-order", (LS, '    result.push_str(&" ".repeat(line_number_ofs + marker_start_ofs_len - marker_start_tab_len));', '    result.push_str(&" ".repeat(marker_start_ofs_len - marker_start_tab_len + line_number_ofs));'))
 benign("c16-r10-benign-named-pad", (LS, '    result.push_str(&" ".repeat(marker_end_ofs_len + line_number_ofs - marker_end_tab_len));', '    let end_pad = marker_end_ofs_len + line_number_ofs - marker_end_tab_len;\n    result.push_str(&" ".repeat(end_pad));'))
 benign("c16-r10-benign-column-literal-bar", (LS, 'format!("{:width$} {}", i, "|", width', 'format!("{:width$} |", i, width'))
+benign("c16-r10-benign-named-width-const-inline-arg", (LS, 'const LINE_COLUMN_WIDTH: usize = 9;', 'const LINE_COLUMN_WIDTH: usize = 9;\nconst LINE_NUMBER_WIDTH: usize = LINE_COLUMN_WIDTH - 2;'), (LS, '                    let line_column =\n                        format!("{:width$} {}", i, "|", width = LINE_COLUMN_WIDTH - 2);', '                    let line_column = format!("{i:LINE_NUMBER_WIDTH$} |");'))
+mut("c16-r10-named-width-const-column-too-narrow", "C16", "C16.R10", (LS, 'const LINE_COLUMN_WIDTH: usize = 9;', 'const LINE_COLUMN_WIDTH: usize = 9;\nconst LINE_NUMBER_WIDTH: usize = LINE_COLUMN_WIDTH - 2;'), (LS, '                    let line_column =\n                        format!("{:width$} {}", i, "|", width = LINE_COLUMN_WIDTH - 2);', '                    let line_column = format!("{i:LINE_NUMBER_WIDTH$}|");'))
+mut("c16-r10-named-width-const-off", "C16", "C16.R10", (LS, 'const LINE_COLUMN_WIDTH: usize = 9;', 'const LINE_COLUMN_WIDTH: usize = 9;\nconst LINE_NUMBER_WIDTH: usize = LINE_COLUMN_WIDTH - 3;'), (LS, '                    let line_column =\n                        format!("{:width$} {}", i, "|", width = LINE_COLUMN_WIDTH - 2);', '                    let line_column = format!("{i:LINE_NUMBER_WIDTH$} |");'))
 mut("c16-json-item-different-args", "C16", "C16.R2", (LS, "                *is_removal,\n                false,\n                line_range,", "                true,\n                false,\n                line_range,"))
 mut("c16-byte0-exit-before-check", "C16", "C16.R3", (LB, "        if cursor >= bytes.len() {\n            break None;\n        }\n\n        match check(content, bytes, &cursor) {\n            CheckResult::Skip => {}\n            CheckResult::Found => break Some(cursor),\n            CheckResult::None => {\n                if pause_on_char {\n                    break None;\n                }\n            }\n        }\n\n        if cursor == 0 {\n            break None;\n        }", "        if cursor >= bytes.len() || cursor == 0 {\n            break None;\n        }\n\n        match check(content, bytes, &cursor) {\n            CheckResult::Skip => {}\n            CheckResult::Found => break Some(cursor),\n            CheckResult::None => {\n                if pause_on_char {\n                    break None;\n                }\n            }\n        }"))
 mut("c16-colour-used-for-width", "C16", "C16.R2", (LS, "    result.push_str(&\" \".repeat(line_number_ofs + marker_start_ofs_len - marker_start_tab_len));", "    result.push_str(&\" \".repeat(line_number_ofs + marker_start_ofs_len - marker_start_tab_len + marker_start_color.len()));"))
